@@ -11,7 +11,6 @@ use crate::ext2::bfs_closure;
 use crate::interp::Interp;
 use crate::proto::*;
 use hpo::annotations::AnnotationId;
-use hpo::term::HpoGroup;
 use hpo::{HpoSet, HpoTermId, Ontology};
 use std::collections::{BTreeMap, BTreeSet};
 use std::panic::{catch_unwind, AssertUnwindSafe};
@@ -43,7 +42,7 @@ fn show_set(set: &HpoSet, uni: &[u32]) -> String {
 }
 
 fn mk<'a>(o: &'a Ontology, l: &[u32]) -> HpoSet<'a> {
-    HpoSet::new(o, HpoGroup::from(l.to_vec()))
+    HpoSet::new(o, crate::ext::mk_group(l))
 }
 
 pub fn exec(it: &mut Interp, toks: &[&str], out: &mut Vec<String>) -> bool {
